@@ -20,7 +20,7 @@ import time as _time
 import types
 from fractions import Fraction as F
 
-from .. import envfix, framework as fw
+from .. import build, c17_translator, envfix, framework as fw
 
 CORPUS = os.path.join(fw.VERIF, "corpus", "C17")
 
@@ -717,6 +717,91 @@ def check_fl53(ctx, model, rng, n):
     return len(reqs), badn
 
 
+# ------------------------------------------------------------------ end-to-end replay (corpus only)
+def run_engine_case(case):
+    """Deterministic replay of one scripted scenario on the real engine (CloudSync over two MockProviders) under
+    the virtual clock.  Monitor: an engine step that changes a provider tree at virtual time t must satisfy
+    t >= (time of the last user change) + aging.  -> list of (law, step index)"""
+    import io
+    env = setup()
+    import cloudsync.sync.manager as M
+    import cloudsync.providers.mock as MK
+    import cloudsync.event as EV
+    from cloudsync import CloudSync
+
+    class EClock(Clock):
+        def sleep(self, x):
+            pass
+
+    clk = EClock()
+    saved = [(m, m.time) for m in (env["S"], M, MK, EV)]
+    for m, _ in saved:
+        m.time = clk
+    HASHES.clear()
+    HASH_SRC[0] = None
+    bad = []
+    try:
+        provs = (env["MockProvider"](False, True), env["MockProvider"](False, True))
+        for p in provs:
+            p.connect({"key": "x"})
+        roots = ("/local", "/remote")
+        cs = CloudSync(provs, roots=roots, storage=None, sleep=None)
+        provs[0].mkdir(roots[0])
+        provs[1].mkdir(roots[1])
+
+        def tree():
+            out = []
+            for sd, p in enumerate(provs):
+                for info in sorted(p.walk(roots[sd]), key=lambda i: i.path):
+                    data = None
+                    if info.otype == env["FILE"]:
+                        b = io.BytesIO()
+                        p.download(info.oid, b)
+                        data = b.getvalue()
+                    out.append((sd, info.path, data))
+            return out
+
+        last_user = None
+        for n, op in enumerate(case["script"]):
+            k = op[0]
+            if k == "clock":
+                clk.t = float(js_q(op[1]))
+            elif k == "aging":
+                cs.aging = float(js_q(op[1]))
+            elif k == "create":
+                provs[op[1]].create(op[2], io.BytesIO(op[3].encode()))
+                last_user = clk.t
+            elif k == "rename":
+                provs[op[1]].rename(provs[op[1]].info_path(op[2]).oid, op[3])
+                last_user = clk.t
+            elif k == "upload":
+                provs[op[1]].upload(provs[op[1]].info_path(op[2]).oid, io.BytesIO(op[3].encode()))
+                last_user = clk.t
+            elif k == "intake":
+                cs.emgrs[0].do()
+                cs.emgrs[1].do()
+            elif k == "drain":                      # settle with the clock advancing; not monitored
+                for _ in range(op[1]):
+                    clk.t += 1.0
+                    cs.emgrs[0].do()
+                    cs.emgrs[1].do()
+                    cs.smgr.do()
+                last_user = None
+            elif k == "sync":
+                before = tree()
+                cs.smgr.do()
+                if tree() != before and last_user is not None and F(clk.t) < F(last_user) + F(cs.aging):
+                    bad.append(("engine_write_before_aged", n))
+            else:
+                raise AssertionError(k)
+        cs.smgr.done()
+    finally:
+        for m, t in saved:
+            m.time = t
+        setup()["S"].time = CLOCK
+    return bad
+
+
 # ------------------------------------------------------------------ corpus
 def load_corpus():
     out = []
@@ -728,6 +813,11 @@ def load_corpus():
 
 def run_case(ctx, model, case, dist, stats, mismatches, label):
     """one table or sequence: correspondence + laws.  -> None"""
+    if case["kind"] == "engine":
+        stats["engine_replays"] = stats.get("engine_replays", 0) + 1
+        for law, n in run_engine_case(case):
+            ctx.violation("law %s fails on the real engine at script step %d" % (law, n), dict(case, law=law))
+        return
     if case["kind"] == "table":
         order, pick, rows, pure = run_table_impl(case)
         out = model.call(table_request(case, order))
@@ -795,6 +885,21 @@ def case_laws_seq(case, trace):
 # ------------------------------------------------------------------ entry point
 def run(ctx):
     setup()
+    # second tie (DESIGN 2.4): regenerate GenSched.v from the current source of SyncState.change
+    gen = dict(ok=False, regenerated=False)
+    try:
+        txt = c17_translator.translate_current()
+        gen["ok"] = True
+        path = os.path.join(build.THEORIES, "GenSched.v")
+        old = open(path).read() if os.path.exists(path) else None
+        if old != txt:
+            with open(path, "w") as f:
+                f.write(txt)
+            gen["regenerated"] = True
+    except c17_translator.TranslateError as e:
+        ctx.violation("translator rejects the current source of SyncState.change: %s" % e,
+                      dict(kind="translator", function="cloudsync.sync.state.SyncState.change", error=str(e)),
+                      no_input=True, theorem="translator: SyncState.change -> GenSched.v (gen_eligible, gen_sort_key)")
     g = ctx.coq_gate("PropC17")
     dist = fw.Distinct()
     stats = dict(tables=0, sequences=0, corpus=0, seq_ops=0, picks_some=0, picks_none=0, ties_decided_by_order=0,
@@ -802,11 +907,18 @@ def run(ctx):
                  eligible_fraction_num=0, eligible_fraction_den=0, age_zero_tables=0)
     samples = []
     mismatches = []
-    if g is not None:
+    model = None
+    try:
+        # when the gate failed (e.g. a generated definition no longer equals the model) the streams still
+        # run against the last built model: they are the search for a concrete failing input
         model = fw.ModelProc("sched")
+    except Exception:
+        model = None
+    stats["translator"] = gen
+    if model is not None:
         quick = ctx.quick
         NT = 5000 if quick else 100000
-        NS = 1200 if quick else 25000
+        NS = 1000 if quick else 25000
         n, _ = check_fl53(ctx, model, ctx.sub_rng("fl53"), 2000 if quick else 20000)
         stats["fl53_checked"] = n
         # ---- corpus first
@@ -817,7 +929,7 @@ def run(ctx):
         if ctx.replay:
             with open(ctx.replay) as f:
                 rp = json.load(f)
-            if isinstance(rp.get("case"), dict) and rp["case"].get("kind") in ("table", "seq"):
+            if isinstance(rp.get("case"), dict) and rp["case"].get("kind") in ("table", "seq", "engine"):
                 c = {k: v for k, v in rp["case"].items() if k not in ("law",)}
                 run_case(ctx, model, c, dist, stats, mismatches, "replay")
         # ---- stream (i): tables
